@@ -317,6 +317,30 @@ def crash_resume(args):
     """run with a kill fault, then `--resume` fault-free (optionally with a second crash first), then summarise.
     args: spec, opts, sched, bufsize, fault {index, phase}, resume {threads?, sched?, bufsize?, fault2?}"""
     t0 = time.time()
+    phase = args.get("phase")          # None: crash and resume in this process; "crash" / "resume": the two halves, run by
+    #                                    different fork servers (= under different PYTHONHASHSEED values) on one run directory
+    if phase == "resume":
+        import json as _json
+        rundir = args["rundir"]
+        try:
+            with open(os.path.join(rundir, "crash_state.json")) as f:
+                stt = _json.load(f)
+            truth = workload.generate(args.get("spec"))
+            paths = stt["paths"]
+            rs = args.get("resume") or {}
+            argv = ["--resume", "-o", stt["outdir"]]
+            if rs.get("threads") is not None:
+                argv += ["-t", str(rs["threads"])]
+            r3 = run_once(rundir, truth, paths, args.get("opts"), sched=rs.get("sched"), fault=None,
+                          bufsize=rs.get("bufsize", args.get("bufsize", 8192)), argv_override=argv, logname="stdout.log")
+            r3["orig_argv"] = stt["orig_argv"]
+            res = summarize(r3, rundir, truth, want=args.get("want", ()), oracles=args.get("oracles", ()))
+            res["crash"] = stt["crash"]
+            res["wall"] = time.time() - t0
+            return res
+        finally:
+            if not args.get("keep"):
+                shutil.rmtree(rundir, ignore_errors=True)
     rundir = new_rundir("c")
     try:
         indir = os.path.join(rundir, "in")
@@ -353,6 +377,16 @@ def crash_resume(args):
             st = _c07.stages_of(labels)
             k0 = _c07.first_crashable(labels)
             cand = [seq for seq, slot, label, occ in labels if seq >= k0 and (not fault.get("stage") or st[seq] == fault["stage"])]
+            if fault.get("label_rx"):
+                # label-relative: the nth event (counted from the end when negative) whose templated label matches
+                import re as _re
+                rx = _re.compile(fault["label_rx"])
+                hits = [seq for seq, slot, label, occ in labels if seq >= k0 and rx.search(label)
+                        and (not fault.get("stage") or st[seq] == fault["stage"])]
+                if hits:
+                    nth = int(fault.get("nth", 0))
+                    cand = [hits[nth % len(hits)] if nth >= 0 else hits[max(0, len(hits) + nth)]]
+                    fault["frac"] = 0.0
             if not cand:
                 cand = [seq for seq, slot, label, occ in labels if seq >= k0] or [0]
             fault["index"] = cand[min(len(cand) - 1, int(float(fault.get("frac", 0.5)) * len(cand)))]
@@ -370,6 +404,12 @@ def crash_resume(args):
             res.update(out)
             res["no_crash"] = True
             return res
+        if phase == "crash":
+            import json as _json
+            with open(os.path.join(rundir, "crash_state.json"), "w") as f:
+                _json.dump({"paths": paths, "outdir": r1["outdir"], "orig_argv": r1["argv"], "crash": out["crash"]}, f)
+            args["keep"] = True          # the second half removes the run directory
+            return {"rundir": rundir, "crash": out["crash"], "phase": "crash", "exit": None, "harness_error": r1["harness_error"]}
         rs = args.get("resume") or {}
         outdir = r1["outdir"]
         argv = ["--resume", "-o", outdir]
